@@ -382,7 +382,7 @@ def run(R):
               "profiles and must return identical results or raise the same exception class. One 'case' = one instance bundle exercising all entry points.")
     R.assumptions = ["exempted public names (documented in-out helpers, stdin elicitors, abstract bases) are listed in harness/c20.py EXEMPT",
                      "no Lean content: a pure functional model cannot mutate and has no dtypes (level 'other')"]
-    cases = [{"d": gen_data(R)} for _ in range(1200 if R.thorough else 36)]
+    cases = [{"d": gen_data(R)} for _ in range(1200 if R.thorough else 72)]
     results = pmap("c20", "impl_one", cases, deadline=180.0, workers=12)
     covered = set()
     public = None
